@@ -24,6 +24,8 @@ mod render;
 mod state;
 mod util;
 mod vardct;
+#[cfg(jxl_oxide_verif)]
+pub mod verif_region;
 
 /// Verification hook H5 (C16): the crate-private block transform entry points.
 #[cfg(jxl_oxide_verif)]
